@@ -7,19 +7,11 @@ import (
 	"verifharness/pcenv"
 )
 
-// operations that lead to other states (SetSwitch, Approve) are replayed by every shard, the calls are spread
-func shardKey(op graph.Op) string {
-	if op.Name() != "Call" {
-		return ""
-	}
-	return op.Str("m") + op.Str("chain") + op.Str("kind") + op.Str("naming")
-}
-
 func TestReplay(t *testing.T) {
 	var c Consts
 	graph.Const(&c)
 	a := New(t, c)
-	pcenv.RunReplaySharded(t, a, a.root, shardKey)
+	pcenv.RunReplaySharded(t, a, a.root, nil) // sharded by state (switch setting x allowance grants)
 }
 
 func TestPath(t *testing.T) {
